@@ -42,7 +42,7 @@ type c34cfg struct {
 	// event: "" | del (another application deletes a majority of the lock keys; offered as a deviation before every
 	// script a locker sends) | del1 (deletes one key of three: a minority) | neterr (one script call made for a live
 	// holder fails with a transient transport error; deviation) | lose (the connection of the holder's client is lost
-	// for good) | losere (lost and re-established) | close (the holder's Locker is closed) | cancel (the context given
+	// for good) | losere (lost and re-established) | losere-other (the same for the other locker's client, where a waiter may be parked) | close (the holder's Locker is closed) | cancel (the context given
 	// to the withc thread is cancelled)
 	event   string
 	hold    time.Duration // > 0: the holder sleeps that long (virtual time) while holding, so extensions happen
@@ -126,6 +126,7 @@ func c34body(c c34cfg) func(x *vsched.Exec) {
 					cl := rueidis.NewVerifSimClient(srv, o)
 					cl.Latency = c.lat
 					cl.ReplyPoint = c.replypt
+					cl.RetryWhileLost = c.event == "losere-other" // default retry policy: retryable scripts wait for the reconnect
 					cl.StartReader("reader" + strconv.Itoa(idx))
 					clients = append(clients, cl)
 					return cl, nil
@@ -455,12 +456,22 @@ func c34body(c c34cfg) func(x *vsched.Exec) {
 			})
 		}
 		switch c.event {
-		case "lose", "losere", "close":
+		case "lose", "losere", "close", "losere-other":
 			vsched.GoDaemon("ev", func() {
 				var h *c34hold
 				vsched.Point("ev-wait", func() bool { h = anyHolder(); return h != nil })
 				evWhat = strconv.Itoa(h.locker)
 				switch c.event {
+				case "losere-other":
+					// the connection of the OTHER locker's client (where a WithContext waiter may be parked) is lost and
+					// re-established: the server forgets what that client tracked, so only the nil invalidation can make the
+					// waiter try again and register its interest anew
+					o := 1 - h.locker
+					evWhat = strconv.Itoa(o)
+					clients[o].Lose()
+					vsched.Point("ev-reconnect", nil)
+					clients[o].Reconnect()
+					clients[o].StartReader("reader" + evWhat + "b")
 				case "lose":
 					clients[h.locker].Lose()
 				case "losere":
@@ -574,6 +585,7 @@ func c34cfgs() []c34cfg {
 		{name: "2lockers-with-with-m1-extdel-replypt", majority: 1, lockers: 2, thr: two, event: "del", replypt: true, p: 1},
 		{name: "2lockers-with-with-m1-lose", majority: 1, lockers: 2, thr: two, event: "lose", p: 1},
 		{name: "2lockers-with-with-m1-losere", majority: 1, lockers: 2, thr: two, event: "losere", p: 1},
+		{name: "2lockers-with-with-m1-losere-other", majority: 1, lockers: 2, thr: two, event: "losere-other", p: 1},
 		{name: "2lockers-with-with-m1-close", majority: 1, lockers: 2, thr: two, event: "close", p: 1},
 		{name: "2lockers-with-with-m1-noloop-longhold-neterr", majority: 1, lockers: 2, thr: two, event: "neterr", noloop: true, hold: 1500 * time.Millisecond, p: 1},
 		{name: "2lockers-with-with-m1-longhold-latency", majority: 1, lockers: 2, thr: two, hold: 1500 * time.Millisecond, lat: 20 * time.Millisecond, horizon: 30000, nodelay: true, p: 0},
